@@ -261,8 +261,14 @@ def dynext_cases(rng, n):
              'ri': rng.choice([None, None, 1, 5, 30, 60]),
              'rc': rng.choice([None, None, 0, 1, 3, 10]) if ty == 0 else rng.choice([None, 0]),
              'reqma': rng.random() < 0.5, 'nc': rng.random() < 0.6, 'cnc': rng.random() < 0.4, 'ss': rng.choice([None, 0, 1, 2, 3])}
+        def word(): return ''.join(rng.choice('abcdefghjkmnpqrstuvwxyz23456789') for _ in range(rng.choice([1, 2, 6, 9, 16, 31])))
+        t['secret'] = word()
+        t['addttl'] = rng.choice([None, None, 1, 5, 64, 255])
+        t['lp'] = rng.choice([None, None, True, False])
         conf = ['conf client c1 {', 'conf   type udp', 'conf   host 10.0.0.1', 'conf   secret x', 'conf }',
-                'conf server tmpl {', 'conf   type %s' % tname[ty], 'conf   secret y', 'conf   dynamicLookupCommand %s' % script]
+                'conf server tmpl {', 'conf   type %s' % tname[ty], 'conf   secret %s' % t['secret'], 'conf   dynamicLookupCommand %s' % script]
+        if t['addttl'] is not None: conf.append('conf   addTTL %d' % t['addttl'])
+        if t['lp'] is not None: conf.append('conf   LoopPrevention %s' % ('on' if t['lp'] else 'off'))
         if t['ri'] is not None: conf.append('conf   RetryInterval %d' % t['ri'])
         if t['rc'] is not None: conf.append('conf   RetryCount %d' % t['rc'])
         if t['reqma']: conf.append('conf   requireMessageAuthenticator on')
@@ -280,7 +286,12 @@ def dynext_cases(rng, n):
                  'reqma': rng.choice([None, None, True, False]), 'nc': rng.choice([None, None, True, False]),
                  'cnc': rng.choice([None, None, True, False]), 'ss': rng.choice([None, None, 0, 1, 2, 3])}
             blk = ['server dynamic {', '  host 192.0.2.9', '  type %s' % tname[ety]] if lty is not None else ['server dynamic {', '  host 192.0.2.9']
-            if rng.random() < 0.5: blk.append('  secret z')
+            l['secret'] = word() if rng.random() < 0.5 else None
+            l['addttl'] = rng.choice([None, None, None, 2, 9, 200])
+            l['lp'] = rng.choice([None, None, None, True, False])
+            if l['secret'] is not None: blk.append('  secret %s' % l['secret'])
+            if l['addttl'] is not None: blk.append('  addTTL %d' % l['addttl'])
+            if l['lp'] is not None: blk.append('  LoopPrevention %s' % ('on' if l['lp'] else 'off'))
             if l['ri'] is not None: blk.append('  RetryInterval %d' % l['ri'])
             if l['rc'] is not None: blk.append('  RetryCount %d' % l['rc'])
             if l['reqma'] is not None: blk.append('  requireMessageAuthenticator %s' % ('on' if l['reqma'] else 'off'))
@@ -292,6 +303,10 @@ def dynext_cases(rng, n):
             kvs = ['t.type=%d' % ty, 't.ri=%s' % (255 if t['ri'] is None else t['ri']), 't.rc=%s' % (255 if t['rc'] is None else t['rc']),
                    't.reqma=%d' % t['reqma'], 't.nc=%d' % t['nc'], 't.cnc=%d' % t['cnc'], 't.ss=%d' % (0 if t['ss'] is None else t['ss'])]
             kvs += ['l.%s=%s' % (x, f(l[x])) for x in ('type', 'ri', 'rc', 'reqma', 'nc', 'cnc', 'ss')]
+            lpv = lambda v: '-' if v is None else ('1' if v else '0')
+            kvs += ['t.secret=%s' % hx(t['secret'].encode()), 't.addttl=%d' % (t['addttl'] or 0), 't.lp=%s' % ('255' if t['lp'] is None else lpv(t['lp'])),
+                    'l.secret=%s' % ('-' if l['secret'] is None else hx(l['secret'].encode())), 'l.addttl=%s' % ('-' if l['addttl'] is None else l['addttl']),
+                    'l.lp=%s' % lpv(l['lp'])]
             ops.append('op dynext %s %s' % (hx(('\n'.join(blk) + '\n').encode()), ' '.join(kvs)))
         out.append(('dynext-%d' % k, conf + ops))
     return out
